@@ -50,6 +50,8 @@ def one(ctx: Ctx, cs, damage=False, pname=None, over=None, derive=None):
             t, cl = malformed(rng)
             while cl == 'garbage-suffix':
                 t, cl = malformed(rng)
+            if rng.random() < 0.25:
+                t, cl = '', 'empty-cell'      # two tabs in a row / a tab at the end of a line: a cell whose text is the empty string
             sp = doc.lines[li].cells[col].spine
             doc.lines[li].cells[col] = Cell('error', t, spine=sp)
             n_damaged += 1
